@@ -82,8 +82,13 @@ def run_case(rng, idx, tier):
         if name == "line_segment_to_circle":
             q = np.asarray(res[1], float)
             endpoint = bool(np.array_equal(q, p1.args[0]) or np.array_equal(q, p1.args[1]))
+        ipp = None
+        if p2.kind in ("ellipsoid", "ellipsoid_surface") and p1.kind == "point":
+            so = p2.orc.solid if p2.kind == "ellipsoid_surface" else p2.orc
+            ql = so.loc(np.asarray(p1.args[0], float))
+            ipp = bool(np.sum((ql / so.e) ** 2) < 1.0 and np.min(np.abs(ql)) <= 1e-9 * max(1.0, float(so.e.max())))
         viol.append({"key": {"fn": name, "kind": "not-the-minimum", "returned_segment_point_is_endpoint": endpoint,
-                             "sliver_triangle": prims.has_sliver(p1, p2)},
+                             "sliver_triangle": prims.has_sliver(p1, p2), "interior_point_on_principal_plane": ipp},
                      "err": float(over),
                      "msg": "%s returned d=%.9g but a pair of points at distance %.9g exists (excess %.3g*L, reference: %s)" % (
                          name, d, dref, over, how)})
